@@ -1,7 +1,8 @@
 // C13 correspondence harness for tlx::RadixHeap (via RadixHeapPair<KeyType, uint32_t, Radix>).
 //   radix <w> <signed> <radix_bits> ops...
-//   ops: P,<hexpattern>,<payload> (push)  E,<hexpattern>,<payload> (emplace)  T (top)  O (pop)  W (swap_top_bucket)
-//        K (peak_top_key)  C (clear)
+//   ops: P,<hexpattern>,<payload> (push)  E (emplace)  F (emplace_keyfirst)  H (get_bucket_key + push_to_bucket)
+//        G (get_bucket + emplace_in_bucket)  T (top)  O (pop)  W (swap_top_bucket)  K (peak_top_key)  C (clear)
+//        Y / Z (copy / move construction+assignment round trip; no output token)
 // Keys travel as the w-bit two's-complement pattern in hex.  One output token per op (format of ocaml/C13_driver.ml);
 // " PROPFAIL@<op>:<why>" is appended when the answers violate the property against a reference multiset.
 #include <cstdint>
@@ -22,7 +23,7 @@ static std::vector<Op> parse_ops(std::istringstream& in) {
     std::vector<Op> ops; std::string tok;
     while (in >> tok) {
         Op o{tok[0], 0, 0};
-        if (tok[0] == 'P' || tok[0] == 'E') {
+        if (tok[0] == 'P' || tok[0] == 'E' || tok[0] == 'F' || tok[0] == 'H' || tok[0] == 'G') {
             size_t a = tok.find(','), b = tok.find(',', a + 1);
             o.key = strtoull(tok.substr(a + 1, b - a - 1).c_str(), nullptr, 16);
             o.payload = static_cast<unsigned>(atol(tok.substr(b + 1).c_str()));
@@ -35,20 +36,34 @@ static std::vector<Op> parse_ops(std::istringstream& in) {
 template <typename KT, unsigned Radix>
 static void run_radix(const std::vector<Op>& ops, std::ostringstream& out) {
     using UT = typename std::make_unsigned<KT>::type;
-    tlx::RadixHeapPair<KT, uint32_t, Radix> h;
+    using H = tlx::RadixHeapPair<KT, uint32_t, Radix>;
+    H h;
     std::multiset<KT> ref;
     std::string fail;
-    bool have_last = false; KT last = 0;
+    bool have_last = false, first = true; KT last = 0;
     auto pat = [](KT k) { return static_cast<unsigned long long>(static_cast<UT>(k)); };
     for (size_t i = 0; i < ops.size(); ++i) {
         const Op& o = ops[i];
         std::string f;
-        if (i) out << ' ';
+        const H& ch = h;                        // size/empty/peak_top_key/get_bucket* through the const interface
+        if (o.name == 'Y') { H c(h); H e2; e2 = c; h = e2; continue; }                                  // copy round trip
+        if (o.name == 'Z') { H m(std::move(h)); H e2; e2 = std::move(m); h = std::move(e2); continue; } // move round trip
+        if (!first) out << ' ';
+        first = false;
         switch (o.name) {
-        case 'P': case 'E': {
+        case 'P': case 'E': case 'F': case 'H': case 'G': {
             KT k = static_cast<KT>(static_cast<UT>(o.key));
             if (have_last && k < last) { out << "INVALID-HISTORY"; return; }
-            size_t idx = o.name == 'P' ? h.push(std::make_pair(k, o.payload)) : h.emplace(k, k, o.payload);
+            std::pair<KT, uint32_t> val(k, o.payload);
+            size_t idx;
+            switch (o.name) {
+            case 'P': idx = h.push(val); break;                                   // push(const value_type&)
+            case 'E': idx = h.emplace(k, k, o.payload); break;                    // emplace(key, ctor args...)
+            case 'F': idx = h.emplace_keyfirst(k, o.payload); break;              // emplace_keyfirst(key, rest...)
+            case 'H': idx = ch.get_bucket_key(k); h.push_to_bucket(idx, val); break;
+            default:  idx = ch.get_bucket(val); h.emplace_in_bucket(idx, k, o.payload); break;
+            }
+            if (idx != ch.get_bucket_key(k)) f = "bucket-index";
             ref.insert(k);
             out << 'i' << idx;
             break;
@@ -86,7 +101,7 @@ static void run_radix(const std::vector<Op>& ops, std::ostringstream& out) {
         }
         case 'K': {
             if (ref.empty()) { out << "INVALID-HISTORY"; return; }
-            KT k = h.peak_top_key();
+            KT k = ch.peak_top_key();
             out << 'k' << std::hex << pat(k) << std::dec;
             if (k != *ref.begin()) f = "peak-not-min";
             break;
@@ -94,8 +109,8 @@ static void run_radix(const std::vector<Op>& ops, std::ostringstream& out) {
         case 'C': h.clear(); ref.clear(); have_last = false; out << 'c'; break;
         default: out << '?';
         }
-        out << ':' << h.size();
-        if (f.empty() && (h.size() != ref.size() || h.empty() != ref.empty())) f = "size";
+        out << ':' << ch.size();
+        if (f.empty() && (ch.size() != ref.size() || ch.empty() != ref.empty())) f = "size";
         if (fail.empty() && !f.empty()) fail = std::to_string(i) + ":" + f;
     }
     if (!fail.empty()) out << " PROPFAIL@" << fail;
